@@ -296,7 +296,9 @@ def main():
                     errors.append("clause %s: more than 5%% of the cases were inconclusive" % n)
         # generator-drift warning
         for n, m in clauses.items():
-            if m["evaluations"] >= 50 and len(m["nt"]) * 20 < m["evaluations"] - m["excluded_known"] and not m["exhaustive"] and not n.endswith("_fuzz"):
+            # a cross-process clause evaluates the same cases in every worker: count them once
+            per = (m["evaluations"] - m["excluded_known"]) / (len(seeds) if m.get("sigs") else 1)
+            if m["evaluations"] >= 50 and len(m["nt"]) * 20 < per and not m["exhaustive"] and not n.endswith("_fuzz"):
                 lines.append("WARNING: clause %s: only %d distinct non-trivial of %d evaluations" % (n, len(m["nt"]), m["evaluations"]))
     finally:
         shutil.rmtree(work, ignore_errors=True)
